@@ -468,6 +468,12 @@ class HSM2Dongle:
             msg = "Error connecting: %s" % e.message
             self.logger.error(msg)
             raise HSM2DongleCommError(msg)
+        except OSError as e:
+            # The HID layer raises an OSError when the device
+            # is listed but cannot be opened
+            msg = "Error connecting: %s" % str(e)
+            self.logger.error(msg)
+            raise HSM2DongleCommError(msg)
 
     # Disconnect from dongle
     def disconnect(self):
